@@ -69,6 +69,27 @@ def prod(l):
     return r
 
 
+NPDTYPES = ['int8', 'int16', 'int32', 'int64', 'uint8', 'uint16', 'float32']
+
+
+def fsqrt(q):
+    """sqrt of an exact non-negative rational as a float, without overflow/underflow for extreme magnitudes."""
+    q = Fraction(q)
+    if q == 0:
+        return 0.0
+    e = (q.numerator.bit_length() - q.denominator.bit_length()) // 2
+    scaled = q / Fraction(4) ** e if e >= 0 else q * Fraction(4) ** (-e)
+    return math.ldexp(math.sqrt(float(scaled)), e)
+
+
+def wrap_int(v, dtype):
+    """the value numpy stores for the exact integer result v in an integer dtype (wrap-around is numpy's
+    semantics of + and - in that dtype, not a property of PixCoord)."""
+    ii = np.iinfo(dtype)
+    lo, hi = int(ii.min), int(ii.max)
+    return (int(v) - lo) % (hi - lo + 1) + lo
+
+
 def mk_arr(a):
     shape = tuple(a['shape'])
     if a['dtype'] == 'int':
@@ -77,6 +98,8 @@ def mk_arr(a):
     else:
         vals = [float(Fraction(v)) for v in a['data']]
         dt = np.float64
+    if a.get('npdtype'):
+        dt = np.dtype(a['npdtype']).type
     form = a.get('form', 'ndarray')
     if shape == ():
         v = vals[0]
@@ -116,15 +139,30 @@ def mk_key(key, bare):
     return tuple(out)
 
 
+NONFIN = ('nan', 'inf', '-inf')
+
+
 def canon_vals(v):
     a = np.asarray(v)
-    return [frac(t) for t in a.reshape(-1).tolist()]
+    out = []
+    for t in a.reshape(-1).tolist():
+        if isinstance(t, float) and not math.isfinite(t):
+            out.append('nan' if math.isnan(t) else ('inf' if t > 0 else '-inf'))
+        else:
+            out.append(frac(t))
+    return out
+
+
+def num(v):
+    """canonical value -> exact Fraction; non-finite values become float nan (never equal / close to anything)."""
+    return float('nan') if v in NONFIN else Fraction(v)
 
 
 def canon_pc(p):
     sx, sy = list(np.shape(p.x)), list(np.shape(p.y))
     out = {'shape': sx, 'x': canon_vals(p.x), 'y': canon_vals(p.y), 'scalar': bool(p.isscalar),
-           'kinds': [np.asarray(p.x).dtype.kind, np.asarray(p.y).dtype.kind]}
+           'kinds': [np.asarray(p.x).dtype.kind, np.asarray(p.y).dtype.kind],
+           'dtypes': [str(np.asarray(p.x).dtype), str(np.asarray(p.y).dtype)]}
     if sx != sy:
         out['shape_y'] = sy
     if p.isscalar:
@@ -186,7 +224,7 @@ def close_pc(real, model, scale):
         if len(real[k]) != len(model[k]):
             return False
         for a, b in zip(real[k], model[k]):
-            if abs(Fraction(a) - Fraction(b)) > tol:
+            if not (abs(num(a) - Fraction(b)) <= tol):
                 return False
     return True
 
@@ -236,7 +274,8 @@ class Check(PropertyCheck):
             'per coordinate: len, iteration, xy, copy; index expressions = tuples of ints (negative, out of range), '
             'slices (start/stop/step, negative and zero step), integer arrays (N-D, negative, out of range), boolean arrays '
             '(1-D..full rank, wrong shape), Ellipsis (none, one, two), too many indices; + and - with PixCoord and '
-            'non-PixCoord operands, (a+b)-b, (a-b)+b, separation both ways; rotations about scalar and array centres by angles of '
+            'non-PixCoord operands, (a+b)-b, (a-b)+b, separation both ways; the same in every array dtype int8/int16/int32/int64/uint8/uint16/float32 '
+            'with small, half-range (squares wrap, sums do not) and full-range values, and float64 at binary exponents +-400..600; rotations about scalar and array centres by angles of '
             'any sign/magnitude in deg/rad/arcmin/arcsec/hourangle (Angle and Quantity) and by exact Pythagorean unit vectors, '
             'twice / by the sum / back; real astropy WCS (TAN/SIN/CAR/ZEA/STG, RA-DEC and GLON-GLAT, rotated PC, both parities, '
             'scales 1e-5..0.1 deg) x origin {0,1} x mode {all,wcs}. Non-trivial = the constructor succeeded on a non-empty coordinate.')
@@ -248,7 +287,10 @@ class Check(PropertyCheck):
         'boolean arrays whose shape mismatch involves a zero-length axis, and nested-tuple keys are outside the modelled language',
         'the WCS pixel<->world maps are parameters (evaluated by real wcslib in the FITS 1-based convention during the run); '
         'sky_roundtrip is proved under the hypothesis that they are mutually inverse',
-        'values are dyadic rationals of moderate size so float + and - are exact and int64 does not overflow; '
+        '+ and - on integer ARRAY dtypes (int8..int64, uint8, uint16) are compared modulo the result dtype: wrap-around of '
+        'a+b / a-b in a narrow dtype is numpy semantics, not a PixCoord property ((a+b)-b = a still holds exactly modulo the dtype); '
+        'separation and rotate are compared with the exact values of the exact integer coordinates (no wrap is excused there)',
+        'values are dyadic rationals (float32/float64 cases: all values of a case share a binary exponent range) so float + and - are exact; '
         'rotation results are compared within 1e-9*scale (the model receives exactly the cos/sin doubles the code used)',
         'separation is kept squared in the model (sqrt-free); the real hypot is compared with sqrt of the exact value to 1e-12 relative',
     ]
@@ -319,6 +361,40 @@ class Check(PropertyCheck):
         if py_bshape(a, b) != list(s):
             a, b = list(s), list(s)
         return {'x': self._arr(rng, a, dtype), 'y': self._arr(rng, b, dtype)}
+
+    def _vals_np(self, rng, n, D, mode):
+        """values representable in dtype D: small, half range (|a +- b| still representable, squares are not),
+        or the full range."""
+        if D == 'float32':
+            m = {'small': 50 * 8, 'half': 2 ** 14 * 8, 'full': 2 ** 15 * 8}[mode]
+            return [frac(Fraction(rng.randint(-m, m), 8)) for _ in range(n)]
+        ii = np.iinfo(D)
+        lo, hi = int(ii.min), int(ii.max)
+        if D == 'int64':          # keep |values| < 2**52 so that they are exact doubles as well
+            lo, hi = -2 ** 52, 2 ** 52
+        if mode == 'small':
+            lo, hi = max(lo, -50), min(hi, 50)
+        elif mode == 'half':
+            lo, hi = (lo // 2 + 1 if lo < 0 else 0), hi // 2
+        out = []
+        for _ in range(n):
+            r = rng.random()
+            if r < 0.15:
+                out.append(rng.choice([lo, hi, 0, lo + 1, hi - 1]))
+            elif r < 0.3:
+                out.append(max(lo, min(hi, rng.randint(-400, 400))))
+            else:
+                out.append(rng.randint(lo, hi))
+        return [str(v) for v in out]
+
+    def _coord_of_shape_np(self, rng, s, D, mode):
+        c = self._coord_of_shape(rng, s, 'float' if D == 'float32' else 'int')
+        for k in ('x', 'y'):
+            a = c[k]
+            a['npdtype'] = D
+            a['form'] = 'ndarray' if a['shape'] else rng.choice(['np0d', 'npscalar'])
+            a['data'] = self._vals_np(rng, prod(a['shape']), D, mode)
+        return c
 
     def _index(self, rng, n, rest, allow_bad):
         """one index for a dimension of size n (rest = following dims, for boolean arrays)."""
@@ -493,6 +569,24 @@ class Check(PropertyCheck):
                 a, b = self._bpair(rng, shapes, True)
             dt = rng.choice([None, None, 'int', 'float'])
             cases.append({'kind': 'arith', 'p': self._coord_of_shape(rng, a, dt), 'o': self._coord_of_shape(rng, b, dt)})
+        # ---- arithmetic / separation in every numeric dtype, with values that are representable themselves but
+        #      wrap-prone in a SQUARE (half range: sums and differences still representable) or also in a SUM (full range)
+        for _ in range(700 if quick else 15000):
+            D = rng.choice(NPDTYPES)
+            a, b = self._bpair(rng, shapes, rng.random() < 0.95)
+            mode = rng.choice(['half', 'half', 'full', 'small'])
+            cases.append({'kind': 'arith', 'npdtype': D, 'vrange': mode,
+                          'p': self._coord_of_shape_np(rng, a, D, mode), 'o': self._coord_of_shape_np(rng, b, D, mode)})
+        # ---- float64 of extreme magnitude (all values of a case share one binary exponent, so + and - stay exact)
+        for _ in range(150 if quick else 3000):
+            a, b = self._bpair(rng, shapes, True)
+            E = rng.choice([600, 511, 400, -400, -537, -600, 52, -52])
+            p_, o_ = self._coord_of_shape(rng, a, 'float'), self._coord_of_shape(rng, b, 'float')
+            for c_ in (p_, o_):
+                for k_ in ('x', 'y'):
+                    c_[k_]['data'] = [frac(Fraction(v) * (Fraction(2) ** E if E >= 0 else Fraction(1, 2 ** (-E)))) for v in c_[k_]['data']]
+                    c_[k_]['form'] = 'ndarray' if c_[k_]['shape'] else 'py'
+            cases.append({'kind': 'arith', 'exp': E, 'p': p_, 'o': o_})
         # ---- rotation
         nd_shapes = [[2, 3], [2, 2], [3, 2], [1, 3], [2, 2, 2], [3, 2, 3], [0, 2], [2, 0]]
         for i in range(700 if quick else 15000):
@@ -518,6 +612,16 @@ class Check(PropertyCheck):
             elif rng.random() < 0.5:
                 c['a2'] = self._angle(rng, c['a1']['unit'])
             cases.append(c)
+        # ---- rotation of coordinates stored in narrow / unsigned / float32 dtypes
+        for _ in range(250 if quick else 5000):
+            D = rng.choice(NPDTYPES)
+            s_, cs = self._bpair(rng, shapes, rng.random() < 0.95)
+            if rng.random() < 0.5:
+                cs = []
+            mode = rng.choice(['half', 'full', 'small'])
+            cases.append({'kind': 'rotate', 'npdtype': D, 'vrange': mode,
+                          'p': self._coord_of_shape_np(rng, s_, D, mode), 'center': self._coord_of_shape_np(rng, cs, D, mode),
+                          'q': self._coord_of_shape_np(rng, s_, D, mode), 'a1': self._angle(rng), 'a2': self._angle(rng, 'deg')})
         # ---- sky round trip
         for _ in range(500 if quick else 10000):
             s = rng.choice(shapes) if rng.random() < 0.7 else rng.choice([[], [3], [2, 3]])
@@ -614,7 +718,7 @@ class Check(PropertyCheck):
             if case['o'] is not None:
                 def sep(a, b):
                     r = attempt(lambda: a.separation(b))
-                    return r if is_err(r) else [list(np.shape(r)), canon_vals(r)]
+                    return r if is_err(r) else [list(np.shape(r)), canon_vals(r), str(np.asarray(r).dtype)]
                 out['sep'] = sep(p, o)
                 out['sep_rev'] = sep(o, p)
             return out
@@ -804,10 +908,21 @@ class Check(PropertyCheck):
         if real[0] != m2[0] or len(real[1]) != len(m2[1]):
             return False
         for d, q in zip(real[1], m2[1]):
-            ex = math.sqrt(Fraction(q))
-            if abs(float(Fraction(d)) - ex) > 1e-12 * max(1.0, ex):
+            ex = fsqrt(q)
+            if not (abs(float(num(d)) - ex) <= 1e-12 * ex):
                 return False
         return True
+
+    @staticmethod
+    def _wrapped(real, model):
+        """the model's exact + / - results as numpy stores them in the real result's integer dtype."""
+        if is_err(real) or is_err(model) or 'fail' in model:
+            return model
+        m = dict(model)
+        for k, dt in zip(('x', 'y'), real.get('dtypes', ['float64', 'float64'])):
+            if np.dtype(dt).kind in 'iu' and not real['scalar']:
+                m[k] = [frac(Fraction(wrap_int(Fraction(v), dt))) if Fraction(v).denominator == 1 else v for v in model[k]]
+        return m
 
     def equal(self, case, real, model):
         if 'fail' in model:
@@ -838,7 +953,7 @@ class Check(PropertyCheck):
             return same_pc(real['res'], model['res'])
         if k == 'arith':
             for n in ('add', 'sub', 'addsub', 'subadd'):
-                if not same_pc(real[n], model[n]):
+                if not same_pc(real[n], self._wrapped(real[n], model[n])):
                     return False
             if case['o'] is not None:
                 return self._sep_close(real['sep'], model['sep2']) and self._sep_close(real['sep_rev'], model['sep2_rev'])
@@ -881,11 +996,11 @@ class Check(PropertyCheck):
             if shp != model['shape'] or scal != (shp == []):
                 return False
             for a, b in zip(lon, model['lon']):
-                d = abs(float(Fraction(a)) - float(b)) % 360.0
-                if min(d, 360.0 - d) > 1e-9:
+                d = abs(float(num(a)) - float(b)) % 360.0
+                if not (min(d, 360.0 - d) <= 1e-9):
                     return False
             for a, b in zip(lat, model['lat']):
-                if abs(float(Fraction(a)) - float(b)) > 1e-9:
+                if not (abs(float(num(a)) - float(b)) <= 1e-9):
                     return False
             if len(lon) != len(model['lon']):
                 return False
@@ -910,7 +1025,7 @@ class Check(PropertyCheck):
                     py_bvalues(c['y']['shape'], [Fraction(v) for v in c['y']['data']], s))
 
         def fr(l):
-            return [Fraction(v) for v in l]
+            return [num(v) for v in l]
 
         def check_pc(name, got, s, xs, ys, tol=None):
             """got (canonical real coordinate) must have shape s and the given values."""
@@ -1016,13 +1131,26 @@ class Check(PropertyCheck):
                 return V
             X, Y = py_bvalues(s, xs, S), py_bvalues(s, ys, S)
             XO, YO = py_bvalues(so, xo, S), py_bvalues(so, yo, S)
-            check_pc('add', real['add'], S, [a + b for a, b in zip(X, XO)], [a + b for a, b in zip(Y, YO)])
-            check_pc('sub', real['sub'], S, [a - b for a, b in zip(X, XO)], [a - b for a, b in zip(Y, YO)])
+            D = case.get('npdtype')
+            # + and - are component-wise; in an integer array dtype numpy stores the exact result modulo the dtype
+            # (numpy's semantics of + and -, see `assumptions`); Python numbers (scalar pairs) are exact
+            isint = (D is not None and np.dtype(D).kind in 'iu') and S != []
+            def st(vals):
+                return [Fraction(wrap_int(v, D)) for v in vals] if isint else list(vals)
+            n0 = len(V)
+            check_pc('add', real['add'], S, st([a + b for a, b in zip(X, XO)]), st([a + b for a, b in zip(Y, YO)]))
+            check_pc('sub', real['sub'], S, st([a - b for a, b in zip(X, XO)]), st([a - b for a, b in zip(Y, YO)]))
             check_pc('add_sub_inverse', real['addsub'], S, X, Y)
             check_pc('sub_add_inverse', real['subadd'], S, X, Y)
-            allint = all(c[n]['dtype'] == 'int' for c in (case['p'], case['o']) for n in ('x',))
-            if not is_err(real['add']) and allint and real['add']['kinds'][0] != 'i':
-                bad('add_dtype_changed', real['add']['kinds'])
+            for v in V[n0:]:
+                v['detail'] += f' [dtype={D} range={case.get("vrange")} exp={case.get("exp")}]'
+            if not is_err(real['add']):
+                got = real['add']['dtypes']
+                if D is not None and S != [] and got != [D, D]:
+                    bad('add_dtype_changed', f'{got} for operands of dtype {D}')
+                if D is None and all(c[n]['dtype'] == 'int' for c in (case['p'], case['o']) for n in ('x', 'y')) \
+                        and real['add']['kinds'] != ['i', 'i']:
+                    bad('add_dtype_changed', real['add']['kinds'])
             for n in ('sep', 'sep_rev'):
                 d = real[n]
                 if is_err(d):
@@ -1032,16 +1160,18 @@ class Check(PropertyCheck):
                     bad(n + '_shape', f'{d[0]} expected {S}')
                     continue
                 for i, v in enumerate(fr(d[1])):
+                    # the exact Euclidean distance of the exact coordinate values (Python integers / rationals)
                     e2 = (XO[i] - X[i]) ** 2 + (YO[i] - Y[i]) ** 2
-                    ex = math.sqrt(e2)
-                    if abs(float(v) - ex) > 1e-12 * max(1.0, ex):
-                        bad('separation_not_euclid', f'{float(v)} expected sqrt({e2})')
+                    ex = fsqrt(e2)
+                    if not (abs(float(v) - ex) <= 1e-12 * ex):
+                        bad('separation_not_euclid', f'{float(v)} expected {ex} = sqrt({frac(e2)[:48]}) [dtype={D} range={case.get("vrange")} '
+                            f'exp={case.get("exp")} result dtype={d[2]}] p=({frac(X[i])},{frac(Y[i])}) o=({frac(XO[i])},{frac(YO[i])})')
                         break
                     if (v == 0) != (e2 == 0):
-                        bad('separation_zero_iff_equal', f'{float(v)} for squared distance {e2}')
+                        bad('separation_zero_iff_equal', f'{float(v)} for squared distance {frac(e2)[:48]} [dtype={D} exp={case.get("exp")}]')
                         break
-            if not is_err(real['sep']) and not is_err(real['sep_rev']) and real['sep'] != real['sep_rev']:
-                bad('separation_not_symmetric', f"{real['sep'][1][:4]} {real['sep_rev'][1][:4]}")
+            if not is_err(real['sep']) and not is_err(real['sep_rev']) and real['sep'][:2] != real['sep_rev'][:2]:
+                bad('separation_not_symmetric', f"{real['sep'][1][:4]} {real['sep_rev'][1][:4]} [dtype={D}]")
             return V
 
         if k == 'rotate':
@@ -1095,7 +1225,7 @@ class Check(PropertyCheck):
                     rbad(nm + '_shape', f'{sa} {sb}')
                     continue
                 va = py_bvalues(sa, va, sb)
-                if any(abs(p_ - q_) > tol for p_, q_ in zip(va, vb)):
+                if any(not (abs(p_ - q_) <= tol) for p_, q_ in zip(va, vb)):
                     rbad(nm, f'{[float(v) for v in va[:4]]} -> {[float(v) for v in vb[:4]]}')
             return V
 
